@@ -572,7 +572,7 @@ Proof. revert a. induction n; intros [|a] H; cbn; try lia; auto. apply IHn. lia.
 
 (* hence every connection of a trace accepted by [maccepts] is a good run of the adapter machine from [init]: the theorems
    of this file (routing, own_entry, cleanup ...) apply to what was observed *)
-Corollary maccepts_components n ls obs snaps lft : maccepts (n, ls, obs, snaps, lft) = true ->
+Corollary maccepts_components n ls obs snaps lft pu : maccepts (n, ls, obs, snaps, lft, pu) = true ->
   exists ms, mrun (repeat init n) ls = Some ms /\
     forall a s', nth_error ms a = Some s' -> exists pls, run init pls = Some s' /\ good_run init pls = true.
 Proof.
@@ -625,20 +625,28 @@ Example maccepts_ex : maccepts
   (2%nat, [(0%nat, LRegister 7 false); (0%nat, LSendOk 0); (1%nat, LRegister 8 false); (1%nat, LSendOk 0);
            (1%nat, LPacket (pk 7 100)); (1%nat, LLookup 0); (0%nat, LPacket (pk 7 100)); (0%nat, LLookup 0); (0%nat, LHandoff 0);
            (0%nat, LReturn 0); (1%nat, LTimeout 0); (1%nat, LReturn 0)],
-   [[Some 100%N]; [None]], [(4%nat, [7; 8])], []) = true.
+   [[Some 100%N]; [None]], [(4%nat, [7; 8])], [], ([], [])) = true.
 Proof. vm_compute. reflexivity. Qed.
 
 (* the same id outstanding on two connections at once is not a good run: ids are process-wide *)
 Example mrejects_shared : maccepts
   (2%nat, [(0%nat, LRegister 7 false); (0%nat, LSendOk 0); (1%nat, LRegister 7 false); (1%nat, LSendOk 0);
            (0%nat, LTimeout 0); (0%nat, LReturn 0); (1%nat, LTimeout 0); (1%nat, LReturn 0)],
-   [[None]; [None]], [], []) = false.
+   [[None]; [None]], [], [], ([], [])) = false.
 Proof. vm_compute. reflexivity. Qed.
 
 (* a reply delivered across connections is not a run *)
 Example mrejects_cross_conn : maccepts
   (2%nat, [(0%nat, LRegister 7 false); (0%nat, LSendOk 0); (1%nat, LPacket (pk 7 100)); (1%nat, LLookup 0); (1%nat, LHandoff 0);
-           (0%nat, LReturn 0)], [[Some 100%N]; []], [], []) = false.
+           (0%nat, LReturn 0)], [[Some 100%N]; []], [], [], ([], [])) = false.
+Proof. vm_compute. reflexivity. Qed.
+
+(* an id-0 packet on a connection whose adapter has a push callback: the callback must have seen exactly that payload *)
+Example maccepts_push : maccepts
+  (1%nat, [(0%nat, LPacket (pk 0 55)); (0%nat, LLookup 0)], [[]], [], [], ([0%nat], [55%N])) = true.
+Proof. vm_compute. reflexivity. Qed.
+Example mrejects_push_lost : maccepts
+  (1%nat, [(0%nat, LPacket (pk 0 55)); (0%nat, LLookup 0)], [[]], [], [], ([0%nat], [])) = false.
 Proof. vm_compute. reflexivity. Qed.
 
 (* the hypothesis is needed: if two outstanding calls share an id, the second Store overwrites the first entry and the
